@@ -68,6 +68,13 @@ def special_cases(rng):
                                        options_2=tuple(pool[1:n]) if where == "second" else (), **codec.rand_entry_fields(rng))
                 out.append(hdr.SOMEIPSDHeader(entries=(ea, eb)))
                 out.append(hdr.SOMEIPSDHeader(entries=(ea, ec, eb)))
+    # configuration options that differ only in the letter case of a key are different options
+    ca = hdr.SOMEIPSDConfigOption((("protocol", "someip"), ("hw", None)))
+    cb = hdr.SOMEIPSDConfigOption((("Protocol", "someip"), ("hw", None)))
+    cc = hdr.SOMEIPSDConfigOption((("PROTOCOL", "someip"), ("hw", None)))
+    for runs in (((ca,), (cb,)), ((ca, cb), (cc,)), ((cb,), (ca, cc))):
+        out.append(hdr.SOMEIPSDHeader(entries=(hdr.SOMEIPSDEntry(options_1=runs[0], options_2=runs[1], **codec.rand_entry_fields(rng)),
+                                               hdr.SOMEIPSDEntry(options_1=runs[1], options_2=(), **codec.rand_entry_fields(rng)))))
     for total in (200, 240, 255, 256, 270, 285, 300):        # distinct options needed
         pool = [hdr.SOMEIPSDLoadBalancingOption(i, 7) for i in range(total)]
         es = [hdr.SOMEIPSDEntry(options_1=tuple(pool[i:i + 15]), options_2=(), **codec.rand_entry_fields(rng)) for i in range(0, total, 15)]
